@@ -56,7 +56,87 @@ func structHasField(t *types.Named, f string) bool {
 	return false
 }
 
-func stripSpaces(s string) string { return strings.ReplaceAll(s, " ", "") }
+func stripSpaces(s string) string {
+	s = strings.ReplaceAll(s, " ", "")
+	if linkCanon != nil {
+		s = linkCanon.Replace(s)
+	}
+	return s
+}
+
+// linkCanon: while one collection type is judged, an order ring kept in a small struct of the entry
+// (e.link.next / e.link.prev) reads as the flat field pair (e.link_next / e.link_prev) the rules are
+// written over. Set by setLinkCanon, nil otherwise.
+var linkCanon *strings.Replacer
+
+// setLinkCanon looks at the entry type behind the collection's bucket table: a struct-typed field of
+// the entry whose struct holds a "next" and a "prev" pointer to the entry type is the order ring.
+func setLinkCanon(t *types.Named) {
+	linkCanon = nil
+	if t == nil {
+		return
+	}
+	st, ok := t.Underlying().(*types.Struct)
+	if !ok {
+		return
+	}
+	var entry *types.Named
+	for i := 0; i < st.NumFields(); i++ {
+		if sl, ok := st.Field(i).Type().Underlying().(*types.Slice); ok {
+			if pt, ok := sl.Elem().(*types.Pointer); ok {
+				if n, ok := pt.Elem().(*types.Named); ok {
+					entry = n
+				}
+			}
+		}
+	}
+	if entry == nil {
+		return
+	}
+	est, ok := entry.Underlying().(*types.Struct)
+	if !ok {
+		return
+	}
+	var pairs []string
+	for i := 0; i < est.NumFields(); i++ {
+		f := est.Field(i)
+		ft := f.Type()
+		if pt, ok := ft.(*types.Pointer); ok {
+			ft = pt.Elem()
+		}
+		rn, ok := ft.(*types.Named)
+		if !ok || rn.Obj() == entry.Obj() {
+			continue
+		}
+		rst, ok := rn.Underlying().(*types.Struct)
+		if !ok {
+			continue
+		}
+		nextF, prevF := "", ""
+		for k := 0; k < rst.NumFields(); k++ {
+			g := rst.Field(k)
+			gp, ok := g.Type().(*types.Pointer)
+			if !ok {
+				continue
+			}
+			if gn, ok := gp.Elem().(*types.Named); !ok || gn.Obj() != entry.Obj() {
+				continue
+			}
+			switch ln := strings.ToLower(g.Name()); {
+			case strings.Contains(ln, "next") || strings.Contains(ln, "succ") || strings.Contains(ln, "after"):
+				nextF = g.Name()
+			case strings.Contains(ln, "prev") || strings.Contains(ln, "pred") || strings.Contains(ln, "before"):
+				prevF = g.Name()
+			}
+		}
+		if nextF != "" && prevF != "" {
+			pairs = append(pairs, "."+f.Name()+"."+nextF, ".link_next", "."+f.Name()+"."+prevF, ".link_prev")
+		}
+	}
+	if len(pairs) > 0 {
+		linkCanon = strings.NewReplacer(pairs...)
+	}
+}
 
 // hmapClassifier abstracts statements of one method into events.
 type hmapClassifier struct {
